@@ -315,6 +315,60 @@ theorem world_tx_every_end_enforces_health {w w' : WState} {tx : List TOp} (h : 
   obtain ⟨h1, _, _, _, _, _, ps, hps, hh⟩ := world_end_flashloan_enforces_health hf
   exact ⟨wj, a, ha, h1, ps, hps, hh⟩
 
+theorem initHealth_unflagged {c : Ctx} {slots : List Account.Slot} {books : Bank.Bank} (hf : flag c ACCOUNT_IN_FLASHLOAN = false)
+    (h : initHealth c slots books = .ok ()) : ∃ ps, portfolio c slots books = .ok ps ∧ Risk.checkInitHealth ps = .ok () := by
+  unfold initHealth at h
+  rw [hf] at h
+  simp only [Bool.false_eq_true, if_false] at h
+  obtain ⟨ps, hps, h⟩ := Res.bind_ok h
+  exact ⟨ps, hps, h⟩
+
+/-- **world_tx_borrow_is_backed**: every borrow of a committed transaction (started with nobody in a flash loan) is backed by a
+    passed initial-margin check of the risk engine on the borrower's whole portfolio — the borrow's own, on the state the borrow
+    left, when the account was not in a flash loan; otherwise the one of the account's `end_flashloan` FURTHER DOWN THE SAME
+    TRANSACTION, on the state the whole bracket left. There is no third case: health is enforced before the transaction ends. -/
+theorem world_tx_borrow_is_backed {w w' : WState} {tx : List TOp} (h : w.runTx tx = some w')
+    (h0 : ∀ (k : Nat) (a : AcctV), w.accts[k]? = some a → inFlash a = false)
+    {i ai bi signer : Nat} {amount : Int} (hi : tx[i]? = some (.ix (.borrow ai bi signer amount))) :
+    (∃ (wi : WState) (a : AcctV) (b : WBank) (o : Out) (ps : List Risk.Pos), wi.accts[ai]? = some a ∧ wi.banks[bi]? = some b ∧
+        borrow (wi.ctx a b signer b.v.liquidityVault 0) amount = .ok o ∧
+        portfolio (wi.ctx a b signer b.v.liquidityVault 0) o.slots o.books = .ok ps ∧ Risk.checkInitHealth ps = .ok ()) ∨
+    (∃ (j s : Nat) (wj : WState) (a : AcctV) (ps : List Risk.Pos), i < j ∧ tx[j]? = some (.endFlash ai s) ∧ wj.accts[ai]? = some a ∧
+        portfolio (wj.actx a s) a.slots noBank.books = .ok ps ∧ Risk.checkInitHealth ps = .ok ()) := by
+  rcases tx_borrow_checked h h0 hi with ⟨wi, a, b, o, ha, hb, ho, hfa, hh⟩ | ⟨j, s, wj, a, f, hij, hj, ha, hf⟩
+  · left
+    obtain ⟨ps, hps, hc⟩ := initHealth_unflagged (c := wi.ctx a b signer b.v.liquidityVault 0) hfa hh
+    exact ⟨wi, a, b, o, ps, ha, hb, ho, hps, hc⟩
+  · right
+    obtain ⟨_, _, _, _, _, _, ps, hps, hc⟩ := world_end_flashloan_enforces_health hf
+    exact ⟨j, s, wj, a, ps, hij, hj, ha, hps, hc⟩
+
+/-- **world_tx_withdraw_is_backed**: the same for every withdrawal of a committed transaction made outside receivership (inside
+    receivership the bracket's own end enforces health: C10) -/
+theorem world_tx_withdraw_is_backed {w w' : WState} {tx : List TOp} (h : w.runTx tx = some w')
+    (h0 : ∀ (k : Nat) (a : AcctV), w.accts[k]? = some a → inFlash a = false)
+    {i ai bi signer : Nat} {amount vault : Int} {all : Bool} (hi : tx[i]? = some (.ix (.withdraw ai bi signer amount all vault))) :
+    (∃ (wi : WState) (a : AcctV) (b : WBank) (o : Out), wi.accts[ai]? = some a ∧ wi.banks[bi]? = some b ∧
+        withdraw (wi.ctx a b signer b.v.liquidityVault vault) amount all = .ok o ∧
+        (hasFlag a.flags ACCOUNT_IN_RECEIVERSHIP = true ∨
+          ∃ ps, portfolio (wi.ctx a b signer b.v.liquidityVault vault) o.slots o.books = .ok ps ∧ Risk.checkInitHealth ps = .ok ())) ∨
+    (∃ (j s : Nat) (wj : WState) (a : AcctV) (ps : List Risk.Pos), i < j ∧ tx[j]? = some (.endFlash ai s) ∧ wj.accts[ai]? = some a ∧
+        portfolio (wj.actx a s) a.slots noBank.books = .ok ps ∧ Risk.checkInitHealth ps = .ok ()) := by
+  rcases tx_withdraw_checked h h0 hi with ⟨wi, a, b, o, ha, hb, ho, hfa, hh⟩ | ⟨j, s, wj, a, f, hij, hj, ha, hf⟩
+  · left
+    refine ⟨wi, a, b, o, ha, hb, ho, ?_⟩
+    unfold withdrawHealth at hh
+    cases hr : flag (wi.ctx a b signer b.v.liquidityVault vault) ACCOUNT_IN_RECEIVERSHIP with
+    | true => left; exact hr
+    | false =>
+      right
+      rw [hr] at hh
+      simp only [Bool.false_eq_true, if_false] at hh
+      exact initHealth_unflagged (c := wi.ctx a b signer b.v.liquidityVault vault) hfa hh
+  · right
+    obtain ⟨_, _, _, _, _, _, ps, hps, hc⟩ := world_end_flashloan_enforces_health hf
+    exact ⟨j, s, wj, a, ps, hij, hj, ha, hps, hc⟩
+
 /-- a small world: one account without positions, no banks -/
 def demoWorld : WState :=
   { now := 100,
